@@ -43,3 +43,20 @@ void *verif_malloc(size_t n) {
     return p;
 }
 void verif_free(void *p) { free(p); }
+
+/* allocation of a SMALL symbolic size as a case split over constant sizes: every branch
+ * allocates an object of constant size, which CBMC bit-blasts directly; an object whose
+ * size is a solver variable goes through the array theory instead (measured: 114 M clauses
+ * for a 9-byte array list).  Exactly n bytes are allocated, so out-of-bounds accesses are
+ * still caught.  n > 40 falls back to the symbolic-size allocation. */
+#define VM_CASE(k) case k: return verif_malloc(k);
+void *verif_malloc_sw(size_t n) {
+    switch (n) {
+        case 0: return verif_malloc(0);
+        VM_CASE(1) VM_CASE(2) VM_CASE(3) VM_CASE(4) VM_CASE(5) VM_CASE(6) VM_CASE(7) VM_CASE(8) VM_CASE(9) VM_CASE(10)
+        VM_CASE(11) VM_CASE(12) VM_CASE(13) VM_CASE(14) VM_CASE(15) VM_CASE(16) VM_CASE(17) VM_CASE(18) VM_CASE(19) VM_CASE(20)
+        VM_CASE(21) VM_CASE(22) VM_CASE(23) VM_CASE(24) VM_CASE(25) VM_CASE(26) VM_CASE(27) VM_CASE(28) VM_CASE(29) VM_CASE(30)
+        VM_CASE(31) VM_CASE(32) VM_CASE(33) VM_CASE(34) VM_CASE(35) VM_CASE(36) VM_CASE(37) VM_CASE(38) VM_CASE(39) VM_CASE(40)
+        default: return verif_malloc(n);
+    }
+}
